@@ -61,16 +61,21 @@ def Asdu.spaceLeft (a : Asdu) : Int := (a.p.maxSize : Int) - (a.payloadSize : In
 /-- first IOA of the payload (`getFirstIOA` / `InformationObject_ParseObjectAddress`) -/
 def parseIOA (n : Nat) (bs : List Nat) : Nat := leVal (bs.take n)
 
+/-- `FileSegment_encode` refuses segments longer than `FileSegment_GetMaxDataSize` -/
+def segFits (a : Asdu) (e : TypeEntry) (vals : List Nat) : Bool :=
+  match e.fields.reverse, vals.reverse with
+  | .seg :: _, _ :: los :: _ =>
+    decide ((los : Int) ≤ (a.p.maxSize : Int) - (a.p.hdrLen : Int) - (a.p.sizeOfIOA : Int) - 4)
+  | _, _ => true
+
+/-- octets the space guard of `<Type>_encode` asks for -/
+def guardSize (a : Asdu) (e : TypeEntry) (sq : Bool) (vals : List Nat) : Nat :=
+  (if sq then fieldsSize e.fields vals else a.p.sizeOfIOA + fieldsSize e.fields vals) + e.guardExtra
+
 /-- one `<Type>_encode` call: space guard, then IOA (unless `sq`) and the fields -/
 def encodeObj (a : Asdu) (e : TypeEntry) (sq : Bool) (ioa : Nat) (vals : List Nat) : Option (List Nat) :=
-  let body := fieldsSize e.fields vals
-  let need := (if sq then body else a.p.sizeOfIOA + body) + e.guardExtra
-  -- FileSegment_encode refuses segments longer than FileSegment_GetMaxDataSize
-  let segOk := match e.fields.reverse, vals.reverse with
-    | .seg :: _, _ :: los :: _ => decide ((los : Int) ≤ (a.p.maxSize : Int) - (a.p.hdrLen : Int) - (a.p.sizeOfIOA : Int) - 4)
-    | _, _ => true
-  if !segOk then none
-  else if a.spaceLeft < (need : Int) then none
+  if segFits a e vals = false then none
+  else if a.spaceLeft < (guardSize a e sq vals : Int) then none
   else (encodeFields e.fields vals).map fun fb => (if sq then [] else leBytes a.p.sizeOfIOA ioa) ++ fb
 
 /-- `CS101_ASDU_addInformationObject` (cs101_asdu.c:253-294) -/
@@ -127,14 +132,16 @@ def Asdu.clone (a : Asdu) : Asdu :=
 def fromBuffer (p : Params) (msg : List Nat) : Option Asdu :=
   if msg.length < p.hdrLen then none else some { p := p, bytes := msg }
 
-/-- outcome of `<Type>_getFromBuffer` at `start` with or without IOA -/
+/-- outcome of `<Type>_getFromBuffer` at `start` with or without IOA: the `minSize > msgSize`
+test first (cs101_information_objects.c, every decoder), then the reads -/
 def decodeObj (p : Params) (e : TypeEntry) (payload : List Nat) (start : Nat) (withIoa : Bool) :
     Option (Nat × List Nat) :=
-  let bs := payload.drop start
-  if withIoa then
-    if bs.length < p.sizeOfIOA then none
-    else (decodeFields e.fields (bs.drop p.sizeOfIOA)).map fun (vs, _) => (parseIOA p.sizeOfIOA bs, vs)
-  else (decodeFields e.fields bs).map fun (vs, _) => (0, vs)
+  if start + (if withIoa then p.sizeOfIOA else 0) + fixedSize e.fields > payload.length then none
+  else
+    let bs := payload.drop start
+    if withIoa then
+      (decodeFields e.fields (bs.drop p.sizeOfIOA)).map fun (vs, _) => (parseIOA p.sizeOfIOA bs, vs)
+    else (decodeFields e.fields bs).map fun (vs, _) => (0, vs)
 
 /-- `CS101_ASDU_getElementEx` (cs101_asdu.c:455-1247): object address and stored values -/
 def Asdu.getElement (a : Asdu) (i : Nat) : Option (Nat × List Nat) :=
